@@ -72,7 +72,7 @@ let () =
          let t = parse_tree l in
          ta := Some t;
          print_endline (if model_wf t then "modelwf ok" else "modelwf BAD");
-         mseq := model_sizes t;
+         mseq := model_sizes (dup_tree t);      (* the tree that is laid out is the normalised one *)
          (match !mseq with None -> print_endline "modelview BAD" | Some _ -> ())
        end else if starts l "PB " then begin
          let tb = parse_tree l in
